@@ -1248,4 +1248,348 @@ theorem handleHit_resp (g : Bool) (D : Down) (hD : D.Sorted) (req : Req) (hreq :
     simp only [List.map_map, Function.comp_def]
     exact hmerge.unique hdirect
 
+/-! ### the extent merge loop keeps extents good -/
+
+theorem sortedRel_insertLt {α : Type} (lt : α → α → Bool) (R : α → α → Prop)
+    (h1 : ∀ a b, lt a b = true → R a b) (h2 : ∀ a b, lt a b = false → R b a) (htr : ∀ a b c, R a b → R b c → R a c)
+    (x : α) : ∀ l : List α, l.Pairwise R → (insertLt lt x l).Pairwise R
+  | [], _ => by simp [insertLt]
+  | y :: l, h => by
+    unfold insertLt
+    have hy := (List.pairwise_cons.mp h).1
+    have hl := (List.pairwise_cons.mp h).2
+    cases hlt : lt y x with
+    | true =>
+      simp only [if_true]
+      refine List.pairwise_cons.mpr ⟨?_, sortedRel_insertLt lt R h1 h2 htr x l hl⟩
+      intro z hz
+      rcases List.mem_cons.mp ((perm_insertLt lt x l).subset hz) with rfl | hz
+      · exact h1 _ _ hlt
+      · exact hy z hz
+    | false =>
+      simp only [Bool.false_eq_true, if_false]
+      refine List.pairwise_cons.mpr ⟨?_, h⟩
+      intro z hz
+      rcases List.mem_cons.mp hz with rfl | hz
+      · exact h2 _ _ hlt
+      · exact htr _ _ _ (h2 _ _ hlt) (hy z hz)
+
+theorem sortedRel_sortLt {α : Type} (lt : α → α → Bool) (R : α → α → Prop)
+    (h1 : ∀ a b, lt a b = true → R a b) (h2 : ∀ a b, lt a b = false → R b a) (htr : ∀ a b c, R a b → R b c → R a c) :
+    ∀ l : List α, (sortLt lt l).Pairwise R
+  | [] => by simp [sortLt]
+  | x :: l => sortedRel_insertLt lt R h1 h2 htr x _ (sortedRel_sortLt lt R h1 h2 htr l)
+
+theorem sorted_extents (l : List Extent) : (sortLt extentLt l).Pairwise fun a b => a.start ≤ b.start := by
+  apply sortedRel_sortLt
+  · intro a b h
+    unfold extentLt at h
+    split at h
+    · omega
+    · simp at h; omega
+  · intro a b h
+    unfold extentLt at h
+    split at h
+    · omega
+    · simp at h; omega
+  · intro a b c h1 h2; omega
+
+theorem mergeExtentsLoop_good (g : Bool) (D : Down) (step : Int) (hs : 0 < step) :
+    ∀ (es : List Extent) (acc : Extent), GoodExtent D step acc → (∀ e ∈ es, GoodExtent D step e) →
+      (∀ e ∈ es, acc.start ≤ e.start) → es.Pairwise (fun a b => a.start ≤ b.start) →
+      ∀ e ∈ mergeExtentsLoop ⟨true, g⟩ step acc es, GoodExtent D step e
+  | [], acc, hacc, _, _, _ => by
+    intro e he; simp [mergeExtentsLoop] at he; subst he; exact hacc
+  | e :: es, acc, hacc, hes, hle, hsorted => by
+    have he := hes e (by simp)
+    have hes' : ∀ e' ∈ es, GoodExtent D step e' := fun e' h => hes e' (List.mem_cons_of_mem _ h)
+    have hs' := (List.pairwise_cons.mp hsorted)
+    unfold mergeExtentsLoop
+    by_cases h1 : acc.stop + step < e.start
+    · rw [if_pos h1]
+      intro x hx
+      rcases List.mem_cons.mp hx with rfl | hx
+      · exact hacc
+      · exact mergeExtentsLoop_good g D step hs es e he hes' hs'.1 hs'.2 x hx
+    · rw [if_neg h1]
+      by_cases h2 : acc.stop ≥ e.stop
+      · rw [if_pos h2]
+        exact mergeExtentsLoop_good g D step hs es acc hacc hes' (fun e' h => hle e' (List.mem_cons_of_mem _ h)) hs'.2
+      · rw [if_neg h2]
+        obtain ⟨a0, a1, a2, a3, a4⟩ := hacc
+        obtain ⟨e0, e1, e2, e3, e4⟩ := he
+        have hae := hle e (by simp)
+        have hnew : GoodExtent D step ⟨acc.start, e.stop, mergeResponse true [acc.resp, e.resp]⟩ := by
+          refine ⟨a0, by simp; omega, a2, e3, ?_⟩
+          have := merge_exact (D := D) (step := step) (A := acc.start) (B := e.stop)
+            (ps := [⟨acc.start, acc.stop, acc.resp⟩, ⟨e.start, e.stop, e.resp⟩])
+            (by intro p hp; simp at hp; rcases hp with rfl | rfl; exact ⟨a0, a4⟩; exact ⟨e0, e4⟩)
+            (by intro p hp; simp at hp; rcases hp with rfl | rfl <;> simp <;> omega)
+            (by
+              intro t ht1 ht2 ht3
+              by_cases hta : t ≤ acc.stop
+              · exact ⟨⟨acc.start, acc.stop, acc.resp⟩, by simp, ht1, hta⟩
+              · refine ⟨⟨e.start, e.stop, e.resp⟩, by simp, ?_, ht2⟩
+                -- t and acc.stop are multiples of step, t > acc.stop, so t ≥ acc.stop + step ≥ e.start
+                have hd : (t - acc.stop) % step = 0 := by
+                  rw [Int.sub_emod, ht3, a3]; simp
+                obtain ⟨k, hk⟩ := Int.dvd_of_emod_eq_zero hd
+                have hkpos : 0 < k := by
+                  rcases Int.lt_or_le 0 k with h | h
+                  · exact h
+                  · have : step * k ≤ 0 := Int.mul_nonpos_of_nonneg_of_nonpos (by omega) h
+                    omega
+                have : step * 1 ≤ step * k := Int.mul_le_mul_of_nonneg_left (by omega) (by omega)
+                simp only
+                omega)
+          simpa using this
+        exact mergeExtentsLoop_good g D step hs es _ hnew hes' (fun e' h => hle e' (List.mem_cons_of_mem _ h)) hs'.2
+
+theorem mergeExtents_good (g : Bool) (D : Down) (step : Int) (hs : 0 < step) (all : List Extent)
+    (h : ∀ e ∈ all, GoodExtent D step e) : ∀ e ∈ mergeExtents ⟨true, g⟩ step all, GoodExtent D step e := by
+  unfold mergeExtents
+  have hperm := perm_sortLt extentLt all
+  have hsorted := sorted_extents all
+  cases hsrt : sortLt extentLt all with
+  | nil => intro e he; simp at he
+  | cons x xs =>
+    rw [hsrt] at hperm hsorted
+    have hp := List.pairwise_cons.mp hsorted
+    simp only
+    exact mergeExtentsLoop_good g D step hs xs x (h x (hperm.subset (by simp)))
+      (fun e he => h e (hperm.subset (List.mem_cons_of_mem _ he))) hp.1 hp.2
+
+theorem handleHit_extents (g : Bool) (D : Down) (hD : D.Sorted) (req : Req) (hreq : Aligned req)
+    (exts : List Extent) (hgood : ∀ e ∈ exts, GoodExtent D req.step e) :
+    ∀ ex, (handleHit ⟨true, g⟩ D req exts false).2 = some ex → ∀ e ∈ ex, GoodExtent D req.step e := by
+  obtain ⟨rs, ps, hpart, _, _, _, hrs⟩ := partition_spec ⟨true, g⟩ D hD req hreq exts hgood
+  intro ex hex
+  unfold handleHit at hex
+  rw [hpart] at hex
+  simp only at hex
+  by_cases hemp : rs.isEmpty = true
+  · simp [hemp] at hex
+  · simp only [hemp, Bool.false_eq_true, if_false, Option.some.injEq] at hex
+    subst hex
+    apply mergeExtents_good g D req.step hreq.1
+    intro e he
+    rcases List.mem_append.mp he with he | he
+    · exact hgood e he
+    · simp only [List.map_map, List.mem_map, Function.comp_def] at he
+      obtain ⟨r, hr, rfl⟩ := he
+      obtain ⟨a1, a2, a3, _, _, a6, a7⟩ := hrs r hr
+      refine ⟨a2, a6, a3, a7, ?_⟩
+      simp only
+      rw [a1]
+      exact evalD_exact D hD req.step r.start r.stop hreq.1 a3
+
+/-- every key of the cache is for the one step `step`, every extent is good -/
+def GoodCache (D : Down) (step : Int) (c : Cache) : Prop :=
+  ∀ kv ∈ c, kv.1.step = step ∧ ∀ e ∈ kv.2, GoodExtent D step e
+
+theorem cacheGet_mem {c : Cache} {k : Key} {v : List Extent} (h : cacheGet c k = some v) : (k, v) ∈ c := by
+  unfold cacheGet at h
+  cases hf : c.find? (fun kv => decide (kv.1 = k)) with
+  | none => simp [hf] at h
+  | some kv =>
+    simp [hf] at h
+    have hm := List.mem_of_find?_eq_some hf
+    have hp := List.find?_some hf
+    simp at hp
+    subst h
+    have : kv = (k, kv.2) := Prod.ext hp rfl
+    rw [← this]; exact hm
+
+theorem cacheGet_none_of_step {D : Down} {step : Int} {c : Cache} (hc : GoodCache D step c) {k : Key} (hk : k.step ≠ step) :
+    cacheGet c k = none := by
+  unfold cacheGet
+  have : c.find? (fun kv => decide (kv.1 = k)) = none := by
+    apply List.find?_eq_none.mpr
+    intro kv hkv
+    simp
+    intro e
+    exact hk (e ▸ (hc kv hkv).1)
+  simp [this]
+
+theorem mem_cachePut {c : Cache} {k : Key} {v : List Extent} {kv : Key × List Extent} (h : kv ∈ cachePut c k v) :
+    kv ∈ c ∨ kv = (k, v) := by
+  induction c with
+  | nil => simp [cachePut] at h; exact Or.inr h
+  | cons x c ih =>
+    obtain ⟨k', v'⟩ := x
+    unfold cachePut at h
+    by_cases hk : k' = k
+    · simp only [hk, if_true, List.mem_cons] at h
+      rcases h with h | h
+      · exact Or.inr h
+      · exact Or.inl (List.mem_cons_of_mem _ h)
+    · simp only [hk, if_false, List.mem_cons] at h
+      rcases h with h | h
+      · exact Or.inl (by rw [h]; simp)
+      · rcases ih h with h | h
+        · exact Or.inl (List.mem_cons_of_mem _ h)
+        · exact Or.inr h
+
+theorem goodCache_put {D : Down} {step : Int} {c : Cache} (hc : GoodCache D step c) {k : Key} (hk : k.step = step)
+    {v : List Extent} (hv : ∀ e ∈ v, GoodExtent D step e) : GoodCache D step (cachePut c k v) := by
+  intro kv hkv
+  rcases mem_cachePut hkv with h | h
+  · exact hc kv h
+  · subst h; exact ⟨hk, hv⟩
+
+theorem lowerSteps_lt {step s : Int} (h : s ∈ lowerSteps step) : s < step := by
+  unfold lowerSteps at h
+  split at h
+  · have := (List.mem_filter.mp h).2
+    simp at this
+    omega
+  · simp at h
+
+/-- **one (sub-)request through the cache** when every cached key is for the request's own step:
+    the answer is the downstream's direct answer and the cache stays good -/
+theorem doReq_spec (g : Bool) (D : Down) (hD : D.Sorted) (splitMs : Int) (c : Cache) (req : Req) (hreq : Aligned req)
+    (hc : GoodCache D req.step c) :
+    (doReq ⟨true, g⟩ D splitMs c req).1 = evalD D req.start req.stop req.step ∧
+    GoodCache D req.step (doReq ⟨true, g⟩ D splitMs c req).2 := by
+  unfold doReq
+  simp only
+  cases hget : cacheGet c ⟨req.step, splitMs, req.start.tdiv splitMs⟩ with
+  | some exts =>
+    have hgood : ∀ e ∈ exts, GoodExtent D req.step e := (hc _ (cacheGet_mem hget)).2
+    have hresp := handleHit_resp g D hD req hreq exts hgood
+    have hext := handleHit_extents g D hD req hreq exts hgood
+    simp only
+    cases hh : handleHit ⟨true, g⟩ D req exts false with
+    | mk resp oex =>
+      rw [hh] at hresp hext
+      simp only at hresp hext
+      cases oex with
+      | none => exact ⟨hresp, hc⟩
+      | some ex => exact ⟨hresp, goodCache_put hc rfl (hext ex rfl)⟩
+  | none =>
+    simp only
+    have hnone : ((lowerSteps req.step).filter fun s => req.start.tmod s = 0).findSome?
+        (fun s => cacheGet c ⟨s, splitMs, req.start.tdiv splitMs⟩) = none := by
+      apply List.findSome?_eq_none_iff.mpr
+      intro s hs
+      have hlt := lowerSteps_lt (List.mem_filter.mp hs).1
+      exact cacheGet_none_of_step hc (by simp; omega)
+    rw [hnone]
+    simp only
+    refine ⟨trivial, goodCache_put hc rfl ?_⟩
+    intro e he
+    simp at he; subst he
+    obtain ⟨h1, h2, h3, h4, h5⟩ := hreq
+    exact ⟨h2, h3, h4, h5, evalD_exact D hD req.step req.start req.stop h1 h4⟩
+
+section
+open Thanos.Split
+
+
+/-- the fold of `frontend` over the sub-requests of a split -/
+def foldParts (cfg : Cfg) (D : Down) (splitMs step : Int) (parts : List (Int × Int)) (init : List Matrix × Cache) :
+    List Matrix × Cache :=
+  parts.foldl (fun (acc : List Matrix × Cache) p =>
+    (acc.1 ++ [(doReq cfg D splitMs acc.2 ⟨p.1, p.2, step⟩).1], (doReq cfg D splitMs acc.2 ⟨p.1, p.2, step⟩).2)) init
+
+theorem foldParts_spec (g : Bool) (D : Down) (hD : D.Sorted) (splitMs step : Int) :
+    ∀ (parts : List (Int × Int)) (resps : List Matrix) (c : Cache), GoodCache D step c →
+      (∀ p ∈ parts, Aligned ⟨p.1, p.2, step⟩) →
+      (foldParts ⟨true, g⟩ D splitMs step parts (resps, c)).1 = resps ++ parts.map (fun p => evalD D p.1 p.2 step) ∧
+      GoodCache D step (foldParts ⟨true, g⟩ D splitMs step parts (resps, c)).2
+  | [], resps, c, hc, _ => by simp [foldParts, hc]
+  | p :: parts, resps, c, hc, hal => by
+    have hp := hal p (by simp)
+    obtain ⟨h1, h2⟩ := doReq_spec g D hD splitMs c ⟨p.1, p.2, step⟩ hp hc
+    simp only at h1 h2
+    have ih := foldParts_spec g D hD splitMs step parts (resps ++ [(doReq ⟨true, g⟩ D splitMs c ⟨p.1, p.2, step⟩).1])
+      (doReq ⟨true, g⟩ D splitMs c ⟨p.1, p.2, step⟩).2 h2 (fun q hq => hal q (List.mem_cons_of_mem _ hq))
+    unfold foldParts at ih ⊢
+    simp only [List.foldl_cons]
+    constructor
+    · rw [ih.1, h1]; simp
+    · exact ih.2
+
+theorem frontend_eq (cfg : Cfg) (D : Down) (splitMs : Int) (c : Cache) (req : Req) (hs : req.step ≠ 0) :
+    frontend cfg D true splitMs c req =
+      match Split.split (req.start.tdiv req.step * req.step) (req.stop.tdiv req.step * req.step) req.step splitMs with
+      | .ok parts =>
+        some (mergeResponse cfg.minAll (foldParts cfg D splitMs req.step parts ([], c)).1,
+              (foldParts cfg D splitMs req.step parts ([], c)).2)
+      | _ => none := by
+  unfold frontend foldParts
+  simp only [hs, if_false, if_true]
+  cases Split.split (req.start.tdiv req.step * req.step) (req.stop.tdiv req.step * req.step) req.step splitMs with
+  | ok parts =>
+    simp only
+  | panic => rfl
+  | fuel => rfl
+
+/-- **one request through the whole chain** (StepAlign → SplitByInterval → results cache →
+    MergeResponse) over a cache whose keys are all for the request's step: the answer is the
+    direct answer to the step-aligned request, and the cache stays good -/
+theorem frontend_spec (g : Bool) (D : Down) (hD : D.Sorted) (splitMs : Int) (hsp : 0 < splitMs) (c : Cache) (req : Req)
+    (hstep : 0 < req.step) (h0 : 0 ≤ req.start) (hle : req.start ≤ req.stop) (hc : GoodCache D req.step c) :
+    ∃ c', frontend ⟨true, g⟩ D true splitMs c req =
+        some (evalD D (req.start / req.step * req.step) (req.stop / req.step * req.step) req.step, c') ∧
+      GoodCache D req.step c' := by
+  have hne : req.step ≠ 0 := by omega
+  have hs1 : req.start.tdiv req.step = req.start / req.step := Int.tdiv_eq_ediv_of_nonneg h0
+  have hs2 : req.stop.tdiv req.step = req.stop / req.step := Int.tdiv_eq_ediv_of_nonneg (by omega)
+  rw [frontend_eq _ _ _ _ _ hne, hs1, hs2]
+  generalize hS : req.start / req.step * req.step = s
+  generalize hE : req.stop / req.step * req.step = e
+  have hsm : s % req.step = 0 := by rw [← hS]; simp
+  have hem : e % req.step = 0 := by rw [← hE]; simp
+  have hs0 : 0 ≤ s := by
+    rw [← hS]; exact Int.mul_nonneg (Int.ediv_nonneg h0 (by omega)) (by omega)
+  have hse : s ≤ e := by
+    rw [← hS, ← hE]
+    exact Int.mul_le_mul_of_nonneg_right (Int.ediv_le_ediv hstep hle) (by omega)
+  obtain ⟨parts, hsplit, hgrid, hsub⟩ := split_spec s e req.step splitMs hstep hsp
+  rw [hsplit]
+  simp only
+  have hal : ∀ p ∈ parts, Aligned ⟨p.1, p.2, req.step⟩ := by
+    intro p hp
+    obtain ⟨a1, a2, a3, a4, a5⟩ := hsub p hp
+    have hp1 : p.1 % req.step = 0 := by
+      have : p.1 = (p.1 - s) + s := by omega
+      rw [this, Int.add_emod, Int.emod_eq_zero_of_dvd a1, hsm]; simp
+    have hp2 : p.2 % req.step = 0 := by
+      rcases a5 with a5 | a5
+      · have : p.2 = (p.2 - p.1) + p.1 := by omega
+        rw [this, Int.add_emod, Int.emod_eq_zero_of_dvd a5, hp1]; simp
+      · rw [a5]; exact hem
+    exact ⟨hstep, by simp; omega, a3, hp1, hp2⟩
+  obtain ⟨hresp, hcache⟩ := foldParts_spec g D hD splitMs req.step parts [] c hc hal
+  refine ⟨(foldParts ⟨true, g⟩ D splitMs req.step parts ([], c)).2, ?_, hcache⟩
+  congr 2
+  rw [hresp, List.nil_append]
+  -- the merged sub-responses are exact for [s, e]
+  let ps : List Piece := parts.map fun p => ⟨p.1, p.2, evalD D p.1 p.2 req.step⟩
+  have hmap : parts.map (fun p => evalD D p.1 p.2 req.step) = ps.map (·.m) := by
+    simp [ps, List.map_map, Function.comp_def]
+  rw [hmap]
+  have hex : Exact D req.step s e (mergeResponse true (ps.map (·.m))) := by
+    apply merge_exact
+    · intro p hp
+      simp only [ps, List.mem_map] at hp
+      obtain ⟨q, hq, rfl⟩ := hp
+      have := hal q hq
+      exact ⟨this.2.1, evalD_exact D hD req.step q.1 q.2 hstep this.2.2.2.1⟩
+    · intro p hp
+      simp only [ps, List.mem_map] at hp
+      obtain ⟨q, hq, rfl⟩ := hp
+      obtain ⟨_, a2, _, a4, _⟩ := hsub q hq
+      exact ⟨a2, a4⟩
+    · intro t ht1 ht2 ht3
+      have hmem : t ∈ grid s e req.step := (mem_grid hstep).mpr ⟨ht1, ht2, by rw [Int.sub_emod, ht3, hsm]; simp⟩
+      rw [← hgrid] at hmem
+      obtain ⟨q, hq, htq⟩ := List.mem_flatMap.mp hmem
+      have := (mem_grid hstep).mp htq
+      exact ⟨⟨q.1, q.2, evalD D q.1 q.2 req.step⟩, List.mem_map.mpr ⟨q, hq, rfl⟩, this.1, this.2.1⟩
+  exact hex.unique (evalD_exact D hD req.step s e hstep hsm)
+
+end
+
 end Thanos.ResultsCache
